@@ -8,6 +8,7 @@ import (
 	_ "crypto/sha256"
 	_ "crypto/sha512"
 	"errors"
+	"io"
 )
 
 // refOrderSize: RFC 9053 section 2.1 - byte length of the curve order (written
@@ -47,4 +48,224 @@ func computeHashRef(h int, data []byte) ([]byte, error) {
 	w := hh.New()
 	w.Write(data)
 	return w.Sum(nil), nil
+}
+
+// ---- spies ---------------------------------------------------------------------------------------
+
+var errSpySign = errors.New("spy signer: injected failure")
+var errSpyVerify = errors.New("spy verifier: injected failure")
+
+// spySigner records what it is asked to sign and returns what the harness chose.
+type spySigner struct {
+	alg     Algorithm
+	sig     []byte
+	fail    bool
+	calls   int
+	content []byte
+}
+
+func (s *spySigner) Algorithm() Algorithm { return s.alg }
+func (s *spySigner) Sign(_ io.Reader, content []byte) ([]byte, error) {
+	s.calls++
+	s.content = content
+	if s.fail {
+		return nil, errSpySign
+	}
+	return s.sig, nil
+}
+
+type spyVerifier struct {
+	alg     Algorithm
+	fail    bool
+	calls   int
+	content []byte
+	sig     []byte
+}
+
+func (v *spyVerifier) Algorithm() Algorithm { return v.alg }
+func (v *spyVerifier) Verify(content, signature []byte) error {
+	v.calls++
+	v.content = content
+	v.sig = signature
+	if v.fail {
+		return errSpyVerify
+	}
+	return nil
+}
+
+// ---- symbolic header material -----------------------------------------------------------------------
+
+// mkLabel: a header label spelt with any Go integer kind (value symbolic) or as a string.
+func mkLabel(name string, allowString bool) any {
+	n := 10
+	if allowString {
+		n = 11
+	}
+	k := vChoose(name+".kind", n)
+	if k == 10 {
+		return vStr(name+".s", 2)
+	}
+	return mkIntOfKind(k, vInt64(name+".v"))
+}
+
+func mkIntOfKind(k int, v int64) any {
+	switch k {
+	case 0:
+		return v
+	case 1:
+		return int(v)
+	case 2:
+		return int8(v)
+	case 3:
+		return int16(v)
+	case 4:
+		return int32(v)
+	case 5:
+		return uint(v)
+	case 6:
+		return uint8(v)
+	case 7:
+		return uint16(v)
+	case 8:
+		return uint32(v)
+	}
+	return uint64(v)
+}
+
+// normLabel: the CBOR-level identity of a label (what ends up on the wire).
+// ok=false for values that cannot be a COSE label; uint64 values above
+// MaxInt64 are reported as big=true.
+func normLabel(l any) (isInt bool, iv int64, sv string, ok bool, big bool) {
+	switch v := l.(type) {
+	case int:
+		return true, int64(v), "", true, false
+	case int8:
+		return true, int64(v), "", true, false
+	case int16:
+		return true, int64(v), "", true, false
+	case int32:
+		return true, int64(v), "", true, false
+	case int64:
+		return true, v, "", true, false
+	case uint:
+		return true, int64(v), "", true, uint64(v) > 1<<63-1
+	case uint8:
+		return true, int64(v), "", true, false
+	case uint16:
+		return true, int64(v), "", true, false
+	case uint32:
+		return true, int64(v), "", true, false
+	case uint64:
+		return true, int64(v), "", true, v > 1<<63-1
+	case string:
+		return false, 0, v, true, false
+	}
+	return false, 0, "", false, false
+}
+
+// mkExternal: nil, empty, or any non-empty external data
+func mkExternal(name string) []byte {
+	switch vChoose(name+".kind", 3) {
+	case 0:
+		return nil
+	case 1:
+		return []byte{}
+	}
+	return vBlobN(name, 1, 1<<31-1)
+}
+
+// mkSimpleValue: header value kinds that carry no rules of their own
+func mkSimpleValue(name string) any {
+	switch vChoose(name+".vkind", 6) {
+	case 0:
+		return vInt64(name + ".i")
+	case 1:
+		return vBlob(name + ".b")
+	case 2:
+		return vStr(name+".s", 3)
+	case 3:
+		return vBool(name + ".t")
+	case 4:
+		return nil
+	}
+	return []any{vInt64(name + ".e0"), vBlob(name + ".e1")}
+}
+
+// mkBenignMap: up to n entries with distinct labels outside the registered
+// range (so that no parameter rule applies); values are opaque byte strings of
+// any length (which makes the encoded map cross every length-prefix boundary)
+// or integers. rich=true adds the other value kinds.
+func mkBenignMap(name string, n int, rich bool) map[any]any {
+	cnt := vChoose(name+".n", n+1)
+	m := map[any]any{}
+	var labels []int64
+	for i := 0; i < cnt; i++ {
+		nm := name + "." + string(rune('a'+i))
+		v := vInt64(nm + ".label")
+		vAssume(vOr(v > 300, v < -300))
+		for _, o := range labels {
+			vAssume(v != o)
+		}
+		labels = append(labels, v)
+		if rich {
+			m[v] = mkSimpleValue(nm)
+		} else if i == 0 {
+			m[v] = vBlob(nm + ".b")
+		} else {
+			m[v] = vInt64(nm + ".i")
+		}
+	}
+	return m
+}
+
+// ---- symbolic wire messages (a peer's encoder: every head width is a free choice) ----------------------
+
+// mkWireHeaderMap: a header map with 0..n benign entries (labels outside the
+// registered range, byte-string / integer values), arbitrary head widths.
+func mkWireHeaderMap(name string, n int) *vNodeT {
+	cnt := vChoose(name+".n", n+1)
+	var pairs []*vNodeT
+	var labels []int64
+	for i := 0; i < cnt; i++ {
+		nm := name + "." + string(rune('a'+i))
+		v := vInt64(nm + ".label")
+		vAssume(v > 300)
+		for _, o := range labels {
+			vAssume(v != o)
+		}
+		labels = append(labels, v)
+		k := nnInt(0, uint64(v), vWidth(nm+".kw", uint64(v)))
+		var val *vNodeT
+		if i == 0 {
+			b := vBlob(nm + ".b")
+			val = nnBstr(b, vWidth(nm+".vw", uint64(len(b))))
+		} else {
+			x := vUint64(nm + ".i")
+			vAssume(x <= 1<<63-1) // documented limit: integers within int64
+			val = nnInt(vChoose(nm+".sign", 2), x, vWidth(nm+".vw", x))
+		}
+		pairs = append(pairs, k, val)
+	}
+	return nnMap(pairs, vWidth(name+".mw", uint64(cnt)))
+}
+
+// mkWireProtected: h'', h'a0' or a wrapped header map; returns the bstr node and its content
+func mkWireProtected(name string, n int) (*vNodeT, []byte) {
+	var content []byte
+	switch vChoose(name+".form", 3) {
+	case 0:
+		content = []byte{}
+	case 1:
+		content = vSer(nnMap(nil, vWidth(name+".ew", 0)))
+	default:
+		m := mkWireHeaderMap(name, n)
+		vAssume(nLen(m) > 0)
+		content = vSer(m)
+	}
+	return nnBstr(content, vWidth(name+".bw", uint64(len(content)))), content
+}
+
+func mkWireBstr(name string, lo, hi int) (*vNodeT, []byte) {
+	b := vBlobN(name, lo, hi)
+	return nnBstr(b, vWidth(name+".w", uint64(len(b)))), b
 }
